@@ -295,7 +295,9 @@ func (fc *funcContext) translateExpr(expr ast.Expr) *expression {
 				return fc.formatExpr("new %1s(-%2h, -%2l)", fc.typeName(t), e.X)
 			case isComplex(basic):
 				return fc.formatExpr("new %1s(-%2r, -%2i)", fc.typeName(t), e.X)
-			case isUnsigned(basic):
+			case isInteger(basic):
+				// Negation wraps around for the most negative value of signed
+				// types and for all unsigned values.
 				return fc.fixNumber(fc.formatExpr("-%e", e.X), basic)
 			default:
 				return fc.formatExpr("-%e", e.X)
